@@ -78,16 +78,18 @@ Proof.
 Qed.
 
 (* a failed frame's own state is irrelevant: popFrame resets to the snapshot *)
-Lemma leave_k_fail_indep k stk st cur cur' f :
-  st <> 0%N -> leave_k k stk st cur' f = leave_k k stk st cur f.
+Lemma leave_k_fail_indep cl async k stk st cur cur' f :
+  st <> 0%N -> leave_k cl async k stk st cur' f = leave_k cl async k stk st cur f.
 Proof.
-  intro H. apply ok_false in H. unfold leave_k, pop_into. destruct stk; rewrite H; reflexivity.
+  intro H. apply ok_false in H. unfold leave_k, pop_into.
+  destruct (async && _)%bool; [reflexivity|]. destruct stk; rewrite H; reflexivity.
 Qed.
 
 (* ------------------------------------------------------------------ generic induction over a script *)
 
 Section RunInd.
   Variable p : params.
+  Variable async : bool.
   (* I: invariant of (current state, current frame, ancestor frames); Q: wanted of the result *)
   Variable I : wstate -> frame -> list frame -> Prop.
   Variable Q : N * wstate * frame -> Prop.
@@ -102,6 +104,8 @@ Section RunInd.
   Hypothesis Hokn_call : okn (p_ccall p).
 
   Hypothesis Hroot : forall st cur f, I cur f [] -> Q (st, (if ok st then cur else f_snap f), f).
+  (* the cleanUpFrames(target) exit *)
+  Hypothesis Hcleanup : forall cur f stk, I cur f stk -> Q (StTimeout, root_snap f stk, root_frame f stk).
   Hypothesis Hpop : forall st cur f par stk,
       I cur f (par :: stk) -> I (fst (pop_into st cur f par)) (snd (pop_into st cur f par)) stk.
   Hypothesis Hset : forall cur f stk a k v, I cur f stk -> I (set_sto cur a k v) f stk.
@@ -120,23 +124,24 @@ Section RunInd.
 
   Lemma leave_k_Q k stk st cur f :
     (forall cur f, I cur f (tl stk) -> Q (k cur f (tl stk))) ->
-    I cur f stk -> Q (leave_k k stk st cur f).
+    I cur f stk -> Q (leave_k root_snap async k stk st cur f).
   Proof.
-    intros Hk HI. destruct stk as [|par stk]; unfold leave_k; cbn [tl] in *.
+    intros Hk HI. unfold leave_k. destruct (async && _)%bool; [apply (Hcleanup cur); exact HI|].
+    destruct stk as [|par stk]; cbn [tl] in *.
     - apply Hroot. exact HI.
     - apply Hk. apply Hpop. exact HI.
   Qed.
 
   Lemma run_Q : forall ops cur f stk,
-      Forall op_allowed ops -> I cur f stk -> Q (run p ops cur f stk).
+      Forall op_allowed ops -> I cur f stk -> Q (run p async ops cur f stk).
   Proof.
     induction ops as [|o rest IH]; intros cur f stk Hall HI.
-    - cbn [run]. apply unwind_Q. exact HI.
+    - cbn [run_gen]. apply unwind_Q. exact HI.
     - inversion Hall as [|? ? Ho Hrest]; subst.
-      assert (IHk : forall stk cur f, I cur f stk -> Q (run p rest cur f stk))
+      assert (IHk : forall stk cur f, I cur f stk -> Q (run p async rest cur f stk))
         by (intros; apply IH; assumption).
-      cbn [run]. cbv zeta.
-      destruct o as [a k v|a b amt|id|id|n| |t amt|st].
+      cbn [run_gen]. cbv zeta.
+      destruct o as [a k v|a b amt|id|id|n| |t amt|st|].
       + apply IHk. apply Hset. exact HI.
       + destruct (Z.ltb_spec amt 0).
         { apply leave_k_Q; [intros; apply IHk; assumption|exact HI]. }
@@ -157,20 +162,21 @@ Section RunInd.
         unfold xfer_call.
         assert (Hc : I cur (snd (deduct (new_frame cur (avail f)) (p_ccall p))) (f :: stk))
           by (apply Hdeduct; [apply Hokn_call|apply Hpush; exact HI]).
-        assert (Hk : forall cur0 f0, I cur0 f0 (tl (f :: stk)) -> Q (run p rest cur0 f0 (tl (f :: stk))))
+        assert (Hk : forall cur0 f0, I cur0 f0 (tl (f :: stk)) -> Q (run p async rest cur0 f0 (tl (f :: stk))))
           by (intros; apply IHk; assumption).
         destruct (fst (deduct (new_frame cur (avail f)) (p_ccall p))) eqn:E; cbn [fst snd].
         * unfold do_transfer.
           destruct (Z.ltb_spec amt 0); cbn [fst snd]; [apply leave_k_Q; assumption|].
           destruct (Z.ltb_spec (bal cur (p_script p)) amt); cbn [fst snd]; [apply leave_k_Q; assumption|].
           destruct (negb _); cbn [fst snd].
-          -- rewrite (leave_k_fail_indep _ _ _ cur) by discriminate. apply leave_k_Q; assumption.
+          -- rewrite (leave_k_fail_indep _ _ _ _ _ cur) by discriminate. apply leave_k_Q; assumption.
           -- assert (Hm : I (move cur (p_script p) t amt)
                             (snd (deduct (new_frame cur (avail f)) (p_ccall p))) (f :: stk)).
              { apply Hmove; try assumption. apply Ho; cbn; auto. }
              apply leave_k_Q; [assumption|].
              destruct (0 <? amt); cbn; [apply Hlog|]; exact Hm.
         * apply leave_k_Q; assumption.
+      + apply leave_k_Q; [intros; apply IHk; assumption|exact HI].
       + apply leave_k_Q; [intros; apply IHk; assumption|exact HI].
   Qed.
 End RunInd.
@@ -229,15 +235,22 @@ Section RunP.
   Definition invP (cur : wstate) (f : frame) (stk : list frame) : Prop :=
     P cur /\ P (f_snap f) /\ Forall (fun g => P (f_snap g)) stk.
 
-  Lemma run_P ops cur f stk :
-    Forall (op_allowed allowed) ops -> invP cur f stk -> P (snd (fst (run p ops cur f stk))).
+  Lemma root_snap_P : forall stk f, P (f_snap f) -> Forall (fun g => P (f_snap g)) stk -> P (root_snap f stk).
+  Proof.
+    induction stk as [|par stk IH]; intros f Hf Hs; cbn; [assumption|].
+    inversion Hs; subst. apply IH; assumption.
+  Qed.
+
+  Lemma run_P async ops cur f stk :
+    Forall (op_allowed allowed) ops -> invP cur f stk -> P (snd (fst (run p async ops cur f stk))).
   Proof.
     intros Hall HI.
-    apply (run_Q p invP (fun r => P (snd (fst r))) allowed (fun _ => True)).
+    apply (run_Q p async invP (fun r => P (snd (fst r))) allowed (fun _ => True)).
     - exact Hscript.
     - intros; exact I.
     - exact I.
     - intros st c g (Hc & Hs & _). cbn. destruct (ok st); assumption.
+    - intros c g stk0 (Hc & Hs & Hf). cbn. apply root_snap_P; assumption.
     - intros st c g par stk0 (Hc & Hs & Hf). inversion Hf; subst.
       repeat split.
       + rewrite pop_into_state. destruct (ok st); assumption.
@@ -257,14 +270,14 @@ Section RunP.
     allowed (t_from t) -> allowed (t_to t) -> Forall (op_allowed allowed) (t_ops t) ->
     P s -> P (snd (fst (call p t s av))).
   Proof.
-    intros Hfrom Hto Hops Hs. unfold call.
+    intros Hfrom Hto Hops Hs. unfold call_gen.
     assert (Hplain : P (snd (fst (plain_transfer p t s (new_frame s av))))).
     { unfold plain_transfer. cbn [fst snd].
       destruct (do_transfer_spec p s (t_from t) (t_to t) (t_value t)) as [(E & Hv & Es)|E].
       - rewrite E, Es. cbn. apply Pmove; auto; lia.
       - apply ok_false in E. rewrite E. assumption. }
     assert (Hscr : P (snd (fst (script_call p t s (new_frame s av))))).
-    { unfold script_call.
+    { unfold script_call_gen.
       destruct (fst (deduct (new_frame s av) (p_ccall p))); cbn [negb]; [|assumption].
       destruct (0 <? t_value t).
       - destruct (do_transfer_spec p s (t_from t) (t_to t) (t_value t)) as [(E & Hv & Es)|E].
@@ -281,7 +294,7 @@ Section RunP.
     allowed (t_from t) -> allowed (t_to t) -> Forall (op_allowed allowed) (t_ops t) ->
     P s -> P (snd (fst (do_execute p t s))).
   Proof.
-    intros. unfold do_execute.
+    intros. unfold do_execute_gen.
     repeat match goal with |- context [if ?c then _ else _] => destruct c end; try assumption.
     unfold after_call. cbn [fst snd]. apply call_P; assumption.
   Qed.
@@ -289,23 +302,21 @@ End RunP.
 
 (* ------------------------------------------------------------------ failure restores the snapshot *)
 
-Fixpoint root_snap (f : frame) (stk : list frame) : wstate :=
-  match stk with [] => f_snap f | par :: stk' => root_snap par stk' end.
-
 Lemma root_snap_snap f g stk : f_snap f = f_snap g -> root_snap f stk = root_snap g stk.
 Proof. destruct stk; cbn; auto. Qed.
 
-Lemma run_failure_restores p ops cur f stk :
-  fst (fst (run p ops cur f stk)) <> 0%N ->
-  snd (fst (run p ops cur f stk)) = root_snap f stk.
+Lemma run_failure_restores p async ops cur f stk :
+  fst (fst (run p async ops cur f stk)) <> 0%N ->
+  snd (fst (run p async ops cur f stk)) = root_snap f stk.
 Proof.
   set (s0 := root_snap f stk).
-  apply (run_Q p (fun _ g stk0 => root_snap g stk0 = s0)
+  apply (run_Q p async (fun _ g stk0 => root_snap g stk0 = s0)
                (fun r => fst (fst r) <> 0%N -> snd (fst r) = s0) (fun _ => True) (fun _ => True)).
   - exact I.
   - intros; exact I.
   - exact I.
   - intros st c g Hg Hst. cbn in *. apply ok_false in Hst. rewrite Hst. exact Hg.
+  - intros c g stk0 Hg _. exact Hg.
   - intros st c g par stk0 Hg. cbn in Hg. rewrite <- Hg. apply root_snap_snap, pop_into_snap.
   - intros c g stk0 a k v Hg. exact Hg.
   - intros c g stk0 a b amt _ _ Hg _ _. exact Hg.
@@ -320,13 +331,13 @@ Qed.
 Lemma call_failure_restores p t s av :
   fst (fst (call p t s av)) <> 0%N -> snd (fst (call p t s av)) = s.
 Proof.
-  unfold call.
+  unfold call_gen.
   assert (Hplain : fst (fst (plain_transfer p t s (new_frame s av))) <> 0%N ->
                    snd (fst (plain_transfer p t s (new_frame s av))) = s).
   { unfold plain_transfer. cbn [fst snd]. intro E. apply ok_false in E. now rewrite E. }
   assert (Hscr : fst (fst (script_call p t s (new_frame s av))) <> 0%N ->
                  snd (fst (script_call p t s (new_frame s av))) = s).
-  { unfold script_call.
+  { unfold script_call_gen.
     destruct (fst (deduct (new_frame s av) (p_ccall p))); cbn [negb]; [|reflexivity].
     destruct (ok (fst (if 0 <? t_value t then _ else _))); [|reflexivity].
     intro E. rewrite run_failure_restores by exact E. cbn. now rewrite deduct_snap. }
@@ -337,23 +348,30 @@ Qed.
 Lemma do_execute_failure_restores p t s :
   fst (fst (do_execute p t s)) <> 0%N -> snd (fst (do_execute p t s)) = s.
 Proof.
-  unfold do_execute.
+  unfold do_execute_gen.
   repeat match goal with |- context [if ?c then _ else _] => destruct c end; try reflexivity.
   unfold after_call. cbn [fst snd]. apply call_failure_restores.
 Qed.
 
 (* ------------------------------------------------------------------ step accounting *)
 
-Lemma run_fr_ok p ops cur f stk :
-  0 <= p_ccall p -> fr_ok f -> Forall fr_ok stk -> fr_ok (snd (run p ops cur f stk)).
+Lemma root_frame_ok : forall stk f, fr_ok f -> Forall fr_ok stk -> fr_ok (root_frame f stk).
+Proof.
+  induction stk as [|par stk IH]; intros f Hf Hs; cbn; [assumption|].
+  inversion Hs; subst. apply IH; assumption.
+Qed.
+
+Lemma run_fr_ok p async ops cur f stk :
+  0 <= p_ccall p -> fr_ok f -> Forall fr_ok stk -> fr_ok (snd (run p async ops cur f stk)).
 Proof.
   intros Hc Hf Hs.
-  apply (run_Q p (fun _ g stk0 => fr_ok g /\ Forall fr_ok stk0) (fun r => fr_ok (snd r))
+  apply (run_Q p async (fun _ g stk0 => fr_ok g /\ Forall fr_ok stk0) (fun r => fr_ok (snd r))
                (fun _ => True) (fun n => 0 <= n)).
   - exact I.
   - intros; lia.
   - exact Hc.
   - intros st c g (Hg & _). exact Hg.
+  - intros c g stk0 (Hg & Hf'). cbn. apply root_frame_ok; assumption.
   - intros st c g par stk0 (Hg & Hf'). inversion Hf'; subst. split; [|assumption].
     apply pop_into_fr_ok; assumption.
   - intros c g stk0 a k v Hg. exact Hg.
@@ -372,7 +390,7 @@ Proof.
   intros Hc Hav.
   assert (H0 : fr_ok (new_frame s av)) by (unfold fr_ok; cbn; lia).
   assert (Hd : fr_ok (snd (deduct (new_frame s av) (p_ccall p)))) by (apply deduct_fr_ok; assumption).
-  unfold call, transfer_and_call, fail_with_call_steps, plain_transfer, script_call.
+  unfold call_gen, transfer_and_call, fail_with_call_steps, plain_transfer, script_call_gen.
   destruct (t_dt t); repeat match goal with |- context [if ?c then _ else _] => destruct c end;
     cbn [fst snd]; try assumption; apply run_fr_ok; auto.
 Qed.
@@ -397,7 +415,7 @@ Proof.
   assert (H2 : fr_ok (snd (deduct (snd (deduct (new_frame s (tx_limit p t)) (p_cdefault p)))
                                   (p_cinput p * t_datalen t))))
     by (apply deduct_fr_ok; [assumption|nia]).
-  unfold do_execute.
+  unfold do_execute_gen.
   repeat match goal with |- context [if ?c then _ else _] => destruct c end; cbn [snd];
     rewrite ?deduct_limit; try (split; [assumption|reflexivity]).
   unfold after_call. cbn [fst snd].
@@ -548,11 +566,11 @@ Lemma plain_effect p t s :
   plain p t -> fst (fst (do_execute p t s)) = 0%N ->
   call_effect p t s = move s (t_from t) (t_to t) (t_value t) /\ 0 <= t_value t <= bal s (t_from t).
 Proof.
-  intros (Hdt & Hto). unfold call_effect, do_execute.
+  intros (Hdt & Hto). unfold call_effect, do_execute_gen.
   repeat match goal with |- context [if ?c then _ else _] => destruct c end; try discriminate.
-  unfold after_call, call. cbn [fst snd]. rewrite Hto.
+  unfold after_call, call_gen. cbn [fst snd]. rewrite Hto.
   assert (E : (match t_dt t with
-               | DCall => if (t_to t =? p_script p)%N then script_call p t s (new_frame s (avail (snd (deduct (snd (deduct (new_frame s (tx_limit p t)) (p_cdefault p))) (p_cinput p * t_datalen t)))))
+               | DCall => if (t_to t =? p_script p)%N then script_call_gen root_snap p t s (new_frame s (avail (snd (deduct (snd (deduct (new_frame s (tx_limit p t)) (p_cdefault p))) (p_cinput p * t_datalen t)))))
                           else if 0 <? t_value t then transfer_and_call p t s (new_frame s (avail (snd (deduct (snd (deduct (new_frame s (tx_limit p t)) (p_cdefault p))) (p_cinput p * t_datalen t)))))
                           else fail_with_call_steps p s (new_frame s (avail (snd (deduct (snd (deduct (new_frame s (tx_limit p t)) (p_cdefault p))) (p_cinput p * t_datalen t))))) StInvalidParameter
                | _ => plain_transfer p t s (new_frame s (avail (snd (deduct (snd (deduct (new_frame s (tx_limit p t)) (p_cdefault p))) (p_cinput p * t_datalen t)))))
@@ -753,16 +771,16 @@ Definition ex_s : wstate :=
 Definition ex_U : list N := [0; 1; 2; 3; 4; 5; 6]%N.
 
 (* a plain transfer that succeeds *)
-Definition ex_xfer : tx := mkTx 0 1 1234 1000 DNone 0 [].
+Definition ex_xfer : tx := mkTx 0 1 1234 1000 DNone 0 false [].
 (* a scripted call: storage write, balance move, log, BTP message, a nested frame that
    fails after moving money, then the root frame fails with status 32 *)
 Definition ex_fail : tx :=
-  mkTx 0 5 7 10000 DCall 150
+  mkTx 0 5 7 10000 DCall 150 false
        [OSet 1 1 77; OMove 1 2 100; OLog 5; OBtp 6; OXfer 3 3; OEnter; OMove 0 3 1; OExit 40; OBurn 50; OExit 32].
 (* a scripted call that succeeds but leaves the sender unable to pay the fee *)
-Definition ex_drain : tx := mkTx 0 5 0 10000 DCall 60 [OMove 0 2 999000; OLog 5].
+Definition ex_drain : tx := mkTx 0 5 0 10000 DCall 60 false [OMove 0 2 999000; OLog 5].
 (* the transfer to a contract-form address without contract: debit, then InvalidParameter *)
-Definition ex_bad : tx := mkTx 0 6 5 1000 DNone 0 [].
+Definition ex_bad : tx := mkTx 0 6 5 1000 DNone 0 false [].
 
 Definition ex_block : list tx := [ex_xfer; ex_fail; ex_drain; ex_bad].
 
@@ -788,7 +806,7 @@ Proof. repeat split; try discriminate; vm_compute; reflexivity. Qed.
 Example ex_failure_after_mutation :
   r_status (fst (execute ex_p ex_fail ex_s)) = 32%N
   /\ r_used (fst (execute ex_p ex_fail ex_s)) = 100 + 2 * 150 + 25 + 25 + 25 + 50
-  /\ (let mid := snd (fst (run ex_p [OSet 1 1 77; OMove 1 2 100; OXfer 3 3] ex_s (new_frame ex_s 1000) [])) in
+  /\ (let mid := snd (fst (run ex_p false [OSet 1 1 77; OMove 1 2 100; OXfer 3 3] ex_s (new_frame ex_s 1000) [])) in
       sto mid 1%N 1%N = 77%N /\ bal mid 2%N = 100 /\ bal mid 3%N = 3)
   /\ bal (snd (execute ex_p ex_fail ex_s)) 2%N = 0
   /\ bal (snd (execute ex_p ex_fail ex_s)) 0%N = 1000000 - 5250.
@@ -804,7 +822,7 @@ Proof. vm_compute. repeat split; reflexivity. Qed.
 
 (* ... and so is the price-zero branch *)
 Example ex_price_zero :
-  let t := mkTx 3 1 1 1000 DNone 0 [] in
+  let t := mkTx 3 1 1 1000 DNone 0 false [] in
   let s := set_bal ex_s 3%N 10 in
   r_status (fst (execute ex_p t s)) = 11%N /\ r_price (fst (execute ex_p t s)) = 0
   /\ r_used (fst (execute ex_p t s)) = 100 /\ bal (snd (execute ex_p t s)) 3%N = 10.
@@ -820,3 +838,81 @@ Example ex_block_result :
   /\ sum_on ex_U (bal (snd (exec_block ex_p ex_block ex_s))) = 1500050
   /\ bal (snd (exec_block ex_p ex_block ex_s)) 4%N = 1000 + 5250 + 2450 + 1250.
 Proof. vm_compute. repeat split; reflexivity. Qed.
+
+(* ------------------------------------------------------------------ timeout while inter-calls are running *)
+
+(* the cleanUpFrames path itself: a frame of an asynchronous call that ends with the
+   Timeout status, at any depth, ends the whole call with Timeout, the world reset to the
+   snapshot of the call's ROOT frame (not of the frame that timed out) *)
+Lemma cleanup_resets_to_target k stk cur f :
+  leave_k root_snap true k stk StTimeout cur f = (StTimeout, root_snap f stk, root_frame f stk).
+Proof. reflexivity. Qed.
+
+Lemma timeout_rollback_all_frames p async ops cur f stk :
+  fst (fst (run p async ops cur f stk)) = StTimeout ->
+  snd (fst (run p async ops cur f stk)) = root_snap f stk.
+Proof. intro H. apply run_failure_restores. rewrite H. discriminate. Qed.
+
+(* transaction level: a timeout at any nesting depth leaves only the fee, and the fee is
+   the whole (capped) step limit *)
+Lemma timeout_consumes_all p t s :
+  wf_params p -> wf_tx t -> fst (fst (do_execute p t s)) = StTimeout ->
+  f_used (snd (do_execute p t s)) = tx_limit p t.
+Proof.
+  intros Hp Ht. pose proof (tx_limit_nonneg p t Hp Ht) as HL. destruct Hp, Ht.
+  unfold do_execute_gen.
+  repeat match goal with |- context [if ?c then _ else _] => destruct c end; try discriminate.
+  unfold after_call. cbn [fst snd]. intro E. rewrite E. cbn [N.eqb StTimeout Pos.eqb].
+  set (b3 := snd (pop_into _ _ _ _)).
+  assert (L3 : f_limit b3 = tx_limit p t).
+  { unfold b3. rewrite pop_into_limit, !deduct_limit. reflexivity. }
+  assert (H3 : fr_ok b3).
+  { unfold b3. apply pop_into_fr_ok.
+    - apply call_fr_ok; [assumption|].
+      assert (fr_ok (snd (deduct (snd (deduct (new_frame s (tx_limit p t)) (p_cdefault p))) (p_cinput p * t_datalen t)))).
+      { apply deduct_fr_ok; [apply deduct_fr_ok|nia]; [|assumption]. unfold fr_ok; cbn; lia. }
+      unfold fr_ok, avail in *. lia.
+    - apply deduct_fr_ok; [apply deduct_fr_ok|nia]; [|assumption]. unfold fr_ok; cbn; lia. }
+  unfold fr_ok in H3. clearbody b3. unfold deduct, avail.
+  destruct (Z.ltb_spec (f_limit b3) (f_used b3 + (f_limit b3 - f_used b3))); cbn; lia.
+Qed.
+
+(* depth 2 and depth 3: every frame mutates, the innermost one hangs / reports Timeout *)
+Definition ex_timeout2 : tx :=
+  mkTx 0 5 7 10000 DCall 100 true
+       [OSet 1 1 77; OMove 1 2 100; OLog 5; OEnter; OSet 2 0 9; OMove 0 3 1; OHang; OLog 6].
+Definition ex_timeout3 : tx :=
+  mkTx 0 5 7 10000 DCall 100 true
+       [OSet 1 1 77; OEnter; OMove 1 2 100; OBtp 3; OEnter; OSet 2 0 9; OXfer 3 3; OExit 12; OExit 0; OLog 6].
+
+Example ex_timeout_nested :
+  r_status (fst (execute ex_p ex_timeout2 ex_s)) = 12%N
+  /\ r_used (fst (execute ex_p ex_timeout2 ex_s)) = 10000
+  /\ sto (snd (execute ex_p ex_timeout2 ex_s)) 1%N 1%N = 0%N
+  /\ bal (snd (execute ex_p ex_timeout2 ex_s)) 2%N = 0
+  /\ r_status (fst (execute ex_p ex_timeout3 ex_s)) = 12%N
+  /\ sto (snd (execute ex_p ex_timeout3 ex_s)) 1%N 1%N = 0%N
+  /\ bal (snd (execute ex_p ex_timeout3 ex_s)) 2%N = 0
+  /\ bal (snd (execute ex_p ex_timeout3 ex_s)) 0%N = 1000000 - 100000.
+Proof. vm_compute. repeat split; reflexivity. Qed.
+
+(* the same scripts run by synchronous nested calls: the callee's Timeout is an ordinary,
+   caught failure of the callee's own frame and the transaction goes on *)
+Example ex_timeout_sync_is_caught :
+  let t := mkTx 0 5 7 10000 DCall 100 false (t_ops ex_timeout2) in
+  r_status (fst (execute ex_p t ex_s)) = 0%N /\ sto (snd (execute ex_p t ex_s)) 1%N 1%N = 77%N
+  /\ sto (snd (execute ex_p t ex_s)) 2%N 0%N = 0%N.
+Proof. vm_compute. repeat split; reflexivity. Qed.
+
+(* REFUTED variant: a cleanUpFrames that resets to the snapshot of the frame that was
+   current when the clean-up started (inner_snap) keeps the outer frames' writes of a
+   transaction reported as failed *)
+Lemma inner_only_cleanup_refuted :
+  exists p t s,
+    r_status (fst (execute_gen inner_snap p t s)) <> 0%N /\
+    snd (execute_gen inner_snap p t s)
+    <> charge_fee s (t_from t) (fee_of (fst (execute_gen inner_snap p t s))).
+Proof.
+  exists ex_p, ex_timeout2, ex_s. split; [vm_compute; discriminate|].
+  intro H. apply (f_equal (fun w => sto w 1%N 1%N)) in H. vm_compute in H. discriminate.
+Qed.
